@@ -4,6 +4,7 @@
 import GunYu.Model.Sender
 import GunYu.Proofs.Decimal
 import GunYu.Proofs.TargetSeq
+import GunYu.Proofs.SenderData
 
 namespace GunYu.Sender
 open GunYu GunYu.Decimal GunYu.Target
@@ -89,13 +90,13 @@ theorem parseStep_data (c : PCfg) (s : PState) (r : Raw) (hp : r.cmd ≠ bPing) 
     parseStep c s r =
       if c.filterCmd r.cmd then (s, POut.skip)
       else if r.cmd = bPublish ∧ (r.args.head?.map lower) = some bSentinelHello then (s, POut.skip)
-      else if s.bypass ∧ closesTxn s r.cmd = false then (s, POut.skip)
+      else if s.bypass ∧ passBracket s r.cmd = false then (s, POut.skip)
       else match c.filterCmdKey r.cmd r.args with
         | none => (s, POut.skip)
         | some a =>
-          (sent s r.cmd (if closesTxn s r.cmd then s.lastSent else r.off),
+          (sent s r.cmd (if passBracket s r.cmd then s.lastSent else r.off),
            POut.emit { cmd := r.cmd, args := a,
-                       offset := (if closesTxn s r.cmd then s.lastSent else r.off), db := s.currentDB }) := by
+                       offset := (if passBracket s r.cmd then s.lastSent else r.off), db := s.currentDB }) := by
   unfold parseStep
   simp only [hp, hs, ↓reduceIte]
   rfl
@@ -104,8 +105,15 @@ theorem parseStep_data (c : PCfg) (s : PState) (r : Raw) (hp : r.cmd ≠ bPing) 
     nothing is reordered, duplicated or invented by the parser -/
 theorem parseStep_emit_off (c : PCfg) (s : PState) (r : Raw) (i : Item)
     (h : (parseStep c s r).2 = POut.emit i) :
-    (i.offset = r.off ∨ (i.offset = s.lastSent ∧ i.cmd = bExec)) ∧
-    (parseStep c s r).1.lastSent = i.offset := by
+    (i.offset = r.off ∨ (i.offset = s.lastSent ∧
+        ((i.cmd = bMulti ∧ s.txnOpen = false) ∨ (i.cmd = bExec ∧ s.txnOpen = true)))) ∧
+    (parseStep c s r).1.lastSent = i.offset ∧
+    (parseStep c s r).1.txnOpen =
+      (if i.cmd = bMulti then true else if i.cmd = bExec then false else s.txnOpen) := by
+  have hpm : bPing ≠ bMulti := by decide
+  have hpe : bPing ≠ bExec := by decide
+  have hsm : bSelect ≠ bMulti := by decide
+  have hse : bSelect ≠ bExec := by decide
   by_cases hp : r.cmd = bPing
   · unfold parseStep at h ⊢
     simp only [hp, ↓reduceIte] at h ⊢
@@ -114,7 +122,7 @@ theorem parseStep_emit_off (c : PCfg) (s : PState) (r : Raw) (i : Item)
     | some a =>
       simp only [hf] at h ⊢
       cases hb : s.bypass <;> simp [hb] at h ⊢
-      subst h; exact ⟨Or.inl rfl, by simp [sent]⟩
+      subst h; exact ⟨Or.inl rfl, by simp [sent], by simp [sent, hpm, hpe]⟩
   · by_cases hs : r.cmd = bSelect
     · have hne : bSelect ≠ bPing := by decide
       unfold parseStep at h ⊢
@@ -140,17 +148,17 @@ theorem parseStep_emit_off (c : PCfg) (s : PState) (r : Raw) (i : Item)
                 · simp only [h0, ↓reduceIte] at h ⊢
                   by_cases hch : (selectDB c s.currentDB n).2 = true
                   · simp only [hch, ↓reduceIte] at h ⊢
-                    injection h with h; subst h; exact ⟨Or.inl rfl, rfl⟩
+                    injection h with h; subst h; exact ⟨Or.inl rfl, rfl, by simp [selectItem, hsm, hse]⟩
                   · simp [hch] at h
                 · simp only [h0, ↓reduceIte] at h ⊢
-                  injection h with h; subst h; exact ⟨Or.inl rfl, by simp [sent]⟩
+                  injection h with h; subst h; exact ⟨Or.inl rfl, by simp [sent], by simp [sent, hsm, hse]⟩
             · simp [hdb] at h
     · rw [parseStep_data c s r hp hs] at h ⊢
       by_cases h1 : c.filterCmd r.cmd = true
       · simp [h1] at h
       · by_cases h2 : r.cmd = bPublish ∧ (r.args.head?.map lower) = some bSentinelHello
         · simp [h1, h2] at h
-        · by_cases h3 : s.bypass = true ∧ closesTxn s r.cmd = false
+        · by_cases h3 : s.bypass = true ∧ passBracket s r.cmd = false
           · simp [h1, h2, h3] at h
           · simp only [h1, h2, h3, Bool.false_eq_true, ↓reduceIte] at h ⊢
             cases hf : c.filterCmdKey r.cmd r.args with
@@ -159,12 +167,13 @@ theorem parseStep_emit_off (c : PCfg) (s : PState) (r : Raw) (i : Item)
               rw [hf] at h
               simp only at h ⊢
               injection h with h; subst h
-              refine ⟨?_, by simp [sent]⟩
-              by_cases hc : closesTxn s r.cmd = true
+              refine ⟨?_, by simp [sent], by simp [sent]⟩
+              by_cases hc : passBracket s r.cmd = true
               · right
-                have he : r.cmd = bExec := by
-                  simp only [closesTxn, Bool.and_eq_true, decide_eq_true_eq] at hc; exact hc.1.2
-                exact ⟨by simp [hc], he⟩
+                refine ⟨by simp [hc], ?_⟩
+                simp only [passBracket, Bool.and_eq_true, Bool.or_eq_true, decide_eq_true_eq,
+                  Bool.not_eq_true'] at hc
+                exact hc.2
               · left; simp [hc]
 
 theorem parseStep_skip_lastSent (c : PCfg) (s : PState) (r : Raw) (s' : PState)
@@ -211,7 +220,58 @@ theorem parseStep_skip_lastSent (c : PCfg) (s : PState) (r : Raw) (s' : PState)
       · simp [h1] at h; rw [← h]
       · by_cases h2 : r.cmd = bPublish ∧ (r.args.head?.map lower) = some bSentinelHello
         · simp [h1, h2] at h; rw [← h]
-        · by_cases h3 : s.bypass = true ∧ closesTxn s r.cmd = false
+        · by_cases h3 : s.bypass = true ∧ passBracket s r.cmd = false
+          · simp [h1, h2, h3] at h; rw [← h]
+          · simp only [h1, h2, h3, Bool.false_eq_true, ↓reduceIte] at h
+            cases hf : c.filterCmdKey r.cmd r.args with
+            | none => rw [hf] at h; simp at h; rw [← h]
+            | some a => rw [hf] at h; simp at h
+
+theorem parseStep_skip_txnOpen (c : PCfg) (s : PState) (r : Raw) (s' : PState)
+    (h : parseStep c s r = (s', POut.skip)) : s'.txnOpen = s.txnOpen := by
+  by_cases hp : r.cmd = bPing
+  · unfold parseStep at h
+    simp only [hp, ↓reduceIte] at h
+    cases hf : c.filterCmdKey bPing r.args with
+    | none => simp [hf] at h; rw [← h]
+    | some a =>
+      simp only [hf] at h
+      cases hb : s.bypass <;> simp [hb] at h
+      rw [← h]
+  · by_cases hs : r.cmd = bSelect
+    · have hne : bSelect ≠ bPing := by decide
+      unfold parseStep at h
+      simp only [hs, hne, ↓reduceIte] at h
+      cases ha : r.args with
+      | nil => simp [ha] at h
+      | cons a rest =>
+        cases rest with
+        | cons _ _ => simp [ha] at h
+        | nil =>
+          simp only [ha] at h
+          cases hn : atoi? a with
+          | none => simp [hn] at h
+          | some n =>
+            simp only [hn] at h
+            cases hdb : c.filterDb n
+            · simp only [hdb, Bool.false_eq_true, ↓reduceIte] at h
+              cases hf : c.filterCmdKey bSelect [a] with
+              | none => simp [hf] at h; rw [← h]
+              | some x =>
+                simp only [hf] at h
+                by_cases h0 : 0 ≤ n
+                · simp only [h0, ↓reduceIte] at h
+                  by_cases hch : (selectDB c s.currentDB n).2 = true
+                  · simp [hch] at h
+                  · simp [hch] at h; rw [← h]
+                · simp [h0] at h
+            · simp [hdb] at h; rw [← h]
+    · rw [parseStep_data c s r hp hs] at h
+      by_cases h1 : c.filterCmd r.cmd = true
+      · simp [h1] at h; rw [← h]
+      · by_cases h2 : r.cmd = bPublish ∧ (r.args.head?.map lower) = some bSentinelHello
+        · simp [h1, h2] at h; rw [← h]
+        · by_cases h3 : s.bypass = true ∧ passBracket s r.cmd = false
           · simp [h1, h2, h3] at h; rw [← h]
           · simp only [h1, h2, h3, Bool.false_eq_true, ↓reduceIte] at h
             cases hf : c.filterCmdKey r.cmd r.args with
@@ -247,7 +307,7 @@ theorem parseAll_offsets_mono (c : PCfg) (raws : List Raw) (s : PState)
         exact ⟨this.1, fun i hi => by have := this.2 i hi; rw [hl] at this; exact this⟩
       | emit i =>
         simp only
-        obtain ⟨hoff, hls⟩ := parseStep_emit_off c s r i (by rw [hps])
+        obtain ⟨hoff, hls, _⟩ := parseStep_emit_off c s r i (by rw [hps])
         rw [hps] at hls
         simp only at hls
         have hile : i.offset ≤ r.off := by rcases hoff with h | ⟨h, _⟩ <;> omega
@@ -264,11 +324,32 @@ theorem parseAll_offsets_mono (c : PCfg) (raws : List Raw) (s : PState)
           · exact hige
           · have := this.2 j hj'; rw [hls] at this; omega
 
-/-- what the sender's wire-order proof needs of its input: offsets never decrease,
-    and only an `EXEC` may repeat the offset before it -/
-def ItemsMono : Int → List Item → Prop
-  | _, [] => True
-  | last, it :: rest => last ≤ it.offset ∧ (it.cmd ≠ bExec → last < it.offset) ∧ ItemsMono it.offset rest
+/-- the sender's status after an item (`fwd1`) -/
+def txnAfter (t : Txn) (it : Item) : Txn :=
+  if it.cmd = bPing then t else (txnStatus it.cmd t).1
+
+/-- what the sender's wire-order proof needs of its input: offsets never
+    decrease, and only an item the sender does not queue (a transaction bracket)
+    may repeat the offset before it. `t` = the sender's transaction status. -/
+def ItemsMono : Txn → Int → List Item → Prop
+  | _, _, [] => True
+  | t, last, it :: rest =>
+    last ≤ it.offset ∧
+    (it.cmd ≠ bPing → forwards (txnStatus it.cmd t).1 = true → last < it.offset) ∧
+    ItemsMono (txnAfter t it) it.offset rest
+
+theorem inT_txnStatus (cmd : Bytes) (t : Txn) :
+    inT (txnStatus cmd t).1 = (if cmd = bMulti then true else if cmd = bExec then false else inT t) := by
+  have hsm : bSelect ≠ bMulti := by decide
+  have hse : bSelect ≠ bExec := by decide
+  have hme : bMulti ≠ bExec := by decide
+  by_cases hm : cmd = bMulti
+  · subst hm; cases t <;> simp [txnStatus, cmdClass, inT, hsm.symm, hme]
+  · by_cases he : cmd = bExec
+    · subst he; cases t <;> simp [txnStatus, cmdClass, inT, hse.symm, hme.symm]
+    · by_cases hs : cmd = bSelect
+      · subst hs; cases t <;> simp [txnStatus, cmdClass, inT, hsm, hse]
+      · cases t <;> simp [txnStatus, cmdClass, inT, hm, he, hs]
 
 /-- the items of a schedule, in order -/
 def itemsOf : List Ev → List Item
@@ -278,12 +359,15 @@ def itemsOf : List Ev → List Item
 
 /-- **The parser's output is what the sender assumes** (`Props.C02.SMono`): for
     a source stream whose command END offsets increase strictly from above the
-    start offset, every item offset is above the previous one, except that the
-    `EXEC` closing a transaction inside a filtered database repeats it. -/
-theorem parseAll_itemsMono (c : PCfg) (raws : List Raw) (s : PState)
+    start offset, every item offset is above the previous one, except that a
+    transaction bracket handed over inside a filtered database repeats it -- and
+    the sender never queues that bracket (the parser's `txnOpen` is the sender's
+    "inside a transaction"). -/
+theorem parseAll_itemsMono (c : PCfg) (raws : List Raw) (s : PState) (t : Txn)
+    (ht : s.txnOpen = inT t)
     (hraw : (raws.map (·.off)).Pairwise (· < ·)) (hlo : ∀ r ∈ raws, s.lastSent < r.off) :
-    ItemsMono s.lastSent (parseAll c s raws) := by
-  induction raws generalizing s with
+    ItemsMono t s.lastSent (parseAll c s raws) := by
+  induction raws generalizing s t with
   | nil => simp [parseAll, ItemsMono]
   | cons r rest ih =>
     have hr : s.lastSent < r.off := hlo r (List.mem_cons_self ..)
@@ -299,21 +383,39 @@ theorem parseAll_itemsMono (c : PCfg) (raws : List Raw) (s : PState)
       | skip =>
         simp only
         have hl : s'.lastSent = s.lastSent := parseStep_skip_lastSent c s r s' (by rw [hps])
-        have := ih s' hraw.2 (fun r' hr' => by rw [hl]; have := hrest_lo r' hr'; omega)
+        have hto : s'.txnOpen = s.txnOpen := parseStep_skip_txnOpen c s r s' (by rw [hps])
+        have := ih s' t (by rw [hto]; exact ht) hraw.2
+          (fun r' hr' => by rw [hl]; have := hrest_lo r' hr'; omega)
         rw [hl] at this; exact this
       | emit i =>
         simp only
-        obtain ⟨hoff, hls⟩ := parseStep_emit_off c s r i (by rw [hps])
-        rw [hps] at hls
-        simp only at hls
+        obtain ⟨hoff, hls, hto⟩ := parseStep_emit_off c s r i (by rw [hps])
+        rw [hps] at hls hto
+        simp only at hls hto
         have hile : i.offset ≤ r.off := by rcases hoff with h | ⟨h, _⟩ <;> omega
-        have := ih s' hraw.2 (fun r' hr' => by rw [hls]; have := hrest_lo r' hr'; omega)
+        have ht' : s'.txnOpen = inT (txnAfter t i) := by
+          unfold txnAfter
+          by_cases hp : i.cmd = bPing
+          · have hpm : bPing ≠ bMulti := by decide
+            have hpe : bPing ≠ bExec := by decide
+            rw [hto]; simp [hp, hpm, hpe, ht]
+          · rw [hto, if_neg hp, inT_txnStatus, ht]
+        have := ih s' (txnAfter t i) ht' hraw.2
+          (fun r' hr' => by rw [hls]; have := hrest_lo r' hr'; omega)
         rw [hls] at this
         refine ⟨?_, ?_, this⟩
         · rcases hoff with h | ⟨h, _⟩ <;> omega
-        · intro hne
-          rcases hoff with h | ⟨_, h⟩
+        · intro _ hfw
+          rcases hoff with h | ⟨_, ⟨hm, hop⟩ | ⟨he, _⟩⟩
           · omega
-          · exact absurd h hne
+          · -- a MULTI outside a transaction is absorbed, not queued
+            exfalso
+            have hnt : inT t = false := by rw [← ht]; exact hop
+            rw [hm] at hfw
+            cases t <;> simp [inT] at hnt <;> simp [txnStatus, cmdClass, forwards] at hfw <;>
+              exact absurd hfw (by decide)
+          · exfalso
+            rw [he] at hfw
+            cases t <;> simp [txnStatus, cmdClass, forwards] at hfw <;> exact absurd hfw (by decide)
 
 end GunYu.Sender
